@@ -19,44 +19,65 @@ import D2V.Model.SemAst
 namespace D2V.Import
 open D2V.SemAst
 
-/-! ### Go's `path` package on strings -/
+/-! ### Go's `path` package — on character lists (structural recursion, so that instances evaluate in the kernel),
+    wrapped for `String` -/
 
-def splitSlash (s : String) : List String := s.splitOn "/"
+abbrev Cs := List Char
+
+/-- split at every `sep` (like `strings.Split`): always at least one piece -/
+def splitC (sep : Char) : Cs → List Cs
+  | [] => [[]]
+  | c :: r =>
+    if c == sep then [] :: splitC sep r
+    else match splitC sep r with
+      | [] => [[c]]
+      | h :: t => (c :: h) :: t
+
+def joinC (sep : Char) : List Cs → Cs
+  | [] => []
+  | [x] => x
+  | x :: r => x ++ sep :: joinC sep r
+
+def dotdot : Cs := ['.', '.']
 
 /-- `path.Clean` -/
-def clean (p : String) : String :=
-  if p == "" then "." else
-  let rooted := p.startsWith "/"
-  let step (acc : List String) (c : String) : List String :=
-    if c == "" || c == "." then acc
-    else if c == ".." then
+def cleanC (p : Cs) : Cs :=
+  if p.isEmpty then ['.'] else
+  let rooted := p.head? == some '/'
+  let step (acc : List Cs) (c : Cs) : List Cs :=
+    if c.isEmpty || c == ['.'] then acc
+    else if c == dotdot then
       match acc with
-      | [] => if rooted then [] else [".."]
-      | top :: rest => if top == ".." then ".." :: top :: rest else rest
+      | [] => if rooted then [] else [dotdot]
+      | top :: rest => if top == dotdot then dotdot :: top :: rest else rest
     else c :: acc
-  let comps := ((splitSlash p).foldl step []).reverse
-  let body := "/".intercalate comps
-  if rooted then "/" ++ body else if body == "" then "." else body
+  let comps := ((splitC '/' p).foldl step []).reverse
+  let body := joinC '/' comps
+  if rooted then '/' :: body else if body.isEmpty then ['.'] else body
 
 /-- `path.Join` -/
-def join (elems : List String) : String :=
-  let ne := elems.filter (· != "")
-  if ne.isEmpty then "" else clean ("/".intercalate ne)
+def joinPathC (elems : List Cs) : Cs :=
+  let ne := elems.filter (!·.isEmpty)
+  if ne.isEmpty then [] else cleanC (joinC '/' ne)
 
 /-- `path.Dir` -/
-def dir (p : String) : String :=
-  let cs := splitSlash p
-  clean ("/".intercalate (cs.dropLast) ++ (if cs.length > 1 then "/" else ""))
+def dirC (p : Cs) : Cs :=
+  let cs := splitC '/' p
+  cleanC (joinC '/' cs.dropLast ++ (if cs.length > 1 then ['/'] else []))
 
 /-- `path.Ext`: from the last `.` of the last element -/
-def ext (p : String) : String :=
-  let last := (splitSlash p).getLast?.getD ""
-  match (last.splitOn ".").reverse with
-  | [] => ""
-  | [_] => ""
-  | e :: _ => "." ++ e
+def extC (p : Cs) : Cs :=
+  let last := (splitC '/' p).getLast?.getD []
+  match (splitC '.' last).reverse with
+  | [] => []
+  | [_] => []
+  | e :: _ => '.' :: e
 
-def isAbs (p : String) : Bool := p.startsWith "/"
+def clean (p : String) : String := String.ofList (cleanC p.toList)
+def join (elems : List String) : String := String.ofList (joinPathC (elems.map String.toList))
+def dir (p : String) : String := String.ofList (dirC p.toList)
+def ext (p : String) : String := String.ofList (extC p.toList)
+def isAbs (p : String) : Bool := p.toList.head? == some '/'
 
 /-! ### the text after `@`: leading run of `.` and `/` is `Pre`, then a key whose first segment is the file
     (a following unquoted segment `d2` is dropped), the remaining segments select a field of the imported map -/
@@ -70,14 +91,14 @@ deriving Repr, BEq, DecidableEq
 def parseImp (raw : String) : ImpRef :=
   let cs := raw.toList
   let pre := cs.takeWhile fun c => c == '.' || c == '/'
-  let rest := String.ofList (cs.dropWhile fun c => c == '.' || c == '/')
-  match rest.splitOn "." with
+  let rest := cs.dropWhile fun c => c == '.' || c == '/'
+  match splitC '.' rest with
   | [] => { pre := String.ofList pre, file := "", keys := [] }
   | f :: more =>
     let more := match more with
-      | "d2" :: r => r
+      | ['d', '2'] :: r => r
       | r => r
-    { pre := String.ofList pre, file := f, keys := more }
+    { pre := String.ofList pre, file := String.ofList f, keys := more.map String.ofList }
 
 /-- `Import.PathWithPre()` -/
 def pathWithPre (raw : String) : String :=
@@ -124,28 +145,51 @@ inductive Ev
   | outOfFuel
 deriving Repr, BEq, DecidableEq
 
-mutual
-/-- events produced by importing `raw` from the file on top of `stack` -/
-def walkImp : Nat → FS → List String → String → List Ev
-  | 0, _, _, _ => [.outOfFuel]
-  | n + 1, fs, stack, raw =>
+/-- the imports of one file, in order; `failed` becomes true as soon as an event was recorded -/
+def walkListWith (f : Bool → String → List Ev) : Bool → List String → List Ev
+  | _, [] => []
+  | failed, r :: rs =>
+    let evs := f failed r
+    evs ++ walkListWith f (failed || !evs.isEmpty) rs
+
+/-- events produced by importing `raw` from the file on top of `stack`.  `failed`: an error has already been
+    recorded — `__import` still pushes (cycle test) and opens the file, but `d2parser.Parse` is handed the shared
+    error list and returns it, so the file's content (and its imports) is not compiled any more. -/
+def walkImp : Nat → FS → List String → Bool → String → List Ev
+  | 0, _, _, _, _ => [.outOfFuel]
+  | n + 1, fs, stack, failed, raw =>
     match push stack raw with
     | .cycle m => [.cycle m]
     | .pushed stack' p =>
       match fs.get? p with
       | none => [.missing p]
-      | some imps => walkList n fs stack' imps
+      | some imps => if failed then [] else walkListWith (walkImp n fs stack') false imps
+
 /-- … and by the imports of one file, in order -/
-def walkList : Nat → FS → List String → List String → List Ev
-  | _, _, _, [] => []
-  | n, fs, stack, r :: rs => walkImp n fs stack r ++ walkList n fs stack rs
-end
+def walkList (n : Nat) (fs : FS) (stack : List String) (failed : Bool) (imps : List String) : List Ev :=
+  walkListWith (walkImp n fs stack) failed imps
+
+theorem walkList_nil (n : Nat) (fs : FS) (stack : List String) (failed : Bool) :
+    walkList n fs stack failed [] = [] := rfl
+
+theorem walkList_cons (n : Nat) (fs : FS) (stack : List String) (failed : Bool) (r : String) (rs : List String) :
+    walkList n fs stack failed (r :: rs) =
+      walkImp n fs stack failed r ++ walkList n fs stack (failed || !(walkImp n fs stack failed r).isEmpty) rs := rfl
+
+theorem walkImp_succ (n : Nat) (fs : FS) (stack : List String) (failed : Bool) (raw : String) :
+    walkImp (n + 1) fs stack failed raw =
+      match push stack raw with
+      | .cycle m => [.cycle m]
+      | .pushed stack' p =>
+        match fs.get? p with
+        | none => [.missing p]
+        | some imps => if failed then [] else walkList n fs stack' false imps := rfl
 
 /-- compiling the entry file `entry` (its own path is pushed raw, as `Compile` does) -/
 def walk (fuel : Nat) (fs : FS) (entry : String) : List Ev :=
   match fs.get? entry with
   | none => []
-  | some imps => walkList fuel fs [entry] imps
+  | some imps => walkList fuel fs [entry] false imps
 
 def fuelFor (fs : FS) : Nat := fs.length + 2
 
